@@ -77,7 +77,19 @@ func pickOrdered(prefix string, n int) []sdk.AccAddress {
 	return cands[:n]
 }
 
+// NewRestartedWorld is a world whose application instance never ran InitGenesis in its own process: the genesis state
+// is written and committed by one instance, and a SECOND instance is then opened over the same database, as a node does
+// after a restart. Whatever a keeper keeps in memory (caches filled at genesis or lazily) is in a different condition
+// there than in an instance that has been running since genesis; the store is the same (C07).
+func NewRestartedWorld(cfg Config) (*World, error) {
+	return newWorld(cfg, true)
+}
+
 func NewWorld(cfg Config) (*World, error) {
+	return newWorld(cfg, false)
+}
+
+func newWorld(cfg Config, restarted bool) (*World, error) {
 	if len(cfg.DSeqTable) == 0 {
 		cfg.DSeqTable = DefaultDSeqs
 	}
@@ -112,7 +124,8 @@ func NewWorld(cfg Config) (*World, error) {
 		w.name[a.String()] = n
 	}
 
-	a := app.NewApp(log.NewNopLogger(), dbm.NewMemDB(), nil, true, 5, map[int64]bool{}, app.DefaultHome, simapp.EmptyAppOptions{})
+	db := dbm.NewMemDB()
+	a := app.NewApp(log.NewNopLogger(), db, nil, true, 5, map[int64]bool{}, app.DefaultHome, simapp.EmptyAppOptions{})
 	gs := app.NewDefaultGenesisState()
 	cdc := a.AppCodec()
 
@@ -153,8 +166,15 @@ func NewWorld(cfg Config) (*World, error) {
 		return nil, err
 	}
 	a.InitChain(abci.RequestInitChain{Validators: []abci.ValidatorUpdate{}, AppStateBytes: stateBytes})
-	w.App = a
-	w.Root = a.BaseApp.NewContext(false, tmproto.Header{Height: 1})
+	if restarted {
+		a.Commit()
+		a = app.NewApp(log.NewNopLogger(), db, nil, true, 5, map[int64]bool{}, app.DefaultHome, simapp.EmptyAppOptions{})
+		w.App = a
+		w.Root = a.BaseApp.NewUncachedContext(false, tmproto.Header{Height: 1})
+	} else {
+		w.App = a
+		w.Root = a.BaseApp.NewContext(false, tmproto.Header{Height: 1})
+	}
 	w.genesis = w.Dump(w.Root)
 	w.genesisIdx = map[string]map[string][]byte{}
 	for n, items := range w.genesis.Stores {
@@ -231,7 +251,8 @@ func (w *World) Reimport(ctx sdk.Context) (w2 *World, ctx2 sdk.Context, err erro
 	if err != nil {
 		return nil, ctx, err
 	}
-	a := app.NewApp(log.NewNopLogger(), dbm.NewMemDB(), nil, true, 5, map[int64]bool{}, app.DefaultHome, simapp.EmptyAppOptions{})
+	db := dbm.NewMemDB()
+	a := app.NewApp(log.NewNopLogger(), db, nil, true, 5, map[int64]bool{}, app.DefaultHome, simapp.EmptyAppOptions{})
 	a.InitChain(abci.RequestInitChain{Validators: []abci.ValidatorUpdate{}, AppStateBytes: stateBytes})
 	w2 = &World{Cfg: w.Cfg, App: a, addr: w.addr, name: w.name, dseqI: w.dseqI}
 	w2.Root = a.BaseApp.NewContext(false, tmproto.Header{Height: ctx.BlockHeight()})
